@@ -611,8 +611,18 @@ def check_definition(chk, d, label, data, plans, vres, wf, case_extra=None):
         # the defect of the definition may sit in states the run never reaches while what it does reach is a genuine
         # loop (`Next` back to an earlier state — a mutation can make one): the reference semantics, which stops at an
         # illegal site, then runs out of fuel without meeting one, and the execution loops by right
-        a = common.driver(["lint\till\t%s\t%s\t%s\t%s\t400" % (pj(machgen.for_model(d)), pj(data),
-                                                                pj(c01.model_ctx(res["exec_arn"], data)), pj(res["oracle"]))])[0].split("\t")
+        # (a loop through a fan-out multiplies the work per unit of fuel: small fuel, and a time limit on the question — a
+        # spinning run the model cannot judge in time is counted as undecided and not reported)
+        import subprocess
+        line = "lint\till\t%s\t%s\t%s\t%s\t60" % (pj(machgen.for_model(d)), pj(data),
+                                                   pj(c01.model_ctx(res["exec_arn"], data)), pj(res["oracle"]))
+        try:
+            pr = subprocess.run([common.DRIVER], input=line + "\n", stdout=subprocess.PIPE, stderr=subprocess.PIPE, text=True, timeout=20)
+            a = (pr.stdout.split("\n") or [""])[0].split("\t")
+        except subprocess.TimeoutExpired:
+            a = ["timeout"]
+            chk.dist("engine.rejected_definition_loop_undecided")
+            legit_loop = True
         if a[0] == "ok":
             mm = json.loads(a[1])
             legit_loop = mm.get("status") == "FUEL" and not mm.get("ill")
